@@ -273,6 +273,52 @@ impl RouterWorld {
     /// Retention proviso: a subscription whose read position points into a segment the log
     /// has already discarded lost messages through retention, not through a routing fault.
     /// Completeness is waived for it (order, duplicates and spurious deliveries still count).
+    /// where every reader stands: (connection id or saved client id, filter index, segment)
+    #[cfg(feature = "snapshot")]
+    fn cursor_positions(&self) -> Vec<(Option<usize>, Option<String>, usize, u64)> {
+        let mut v = vec![];
+        let Some(r) = self.router.as_ref() else { return v };
+        let snap = r.verif_snapshot();
+        for c in snap.connections.iter() {
+            for q in c.requests.iter() {
+                v.push((Some(c.id), None, q.1, q.3 .0));
+            }
+            for e in c.inflight.iter() {
+                if let Some(cur) = e.2 {
+                    v.push((Some(c.id), None, e.1, cur.0));
+                }
+            }
+        }
+        for f in snap.filters.iter() {
+            for (id, q) in f.waiters.iter() {
+                v.push((Some(*id), None, f.idx, q.3 .0));
+            }
+        }
+        for g in snap.graveyard.iter() {
+            if let Some((reqs, _, _)) = &g.session {
+                for q in reqs.iter() {
+                    v.push((None, Some(g.client_id.clone()), q.1, q.3 .0));
+                }
+            }
+        }
+        v
+    }
+
+    /// readers whose segment was discarded during the turn that has just run (the router
+    /// appends everything first and serves the readers afterwards, so they had no chance)
+    #[cfg(feature = "snapshot")]
+    fn mark_overtaken(&mut self, before: Vec<(Option<usize>, Option<String>, usize, u64)>) {
+        let Some(r) = self.router.as_ref() else { return };
+        let snap = r.verif_snapshot();
+        for f in snap.filters.iter() {
+            let ids: Vec<usize> = before.iter().filter(|p| p.2 == f.idx && p.3 < f.head).filter_map(|p| p.0).collect();
+            let names: Vec<String> = before.iter().filter(|p| p.2 == f.idx && p.3 < f.head).filter_map(|p| p.1.clone()).collect();
+            if !ids.is_empty() || !names.is_empty() {
+                self.model.mark_lagged(&f.filter, &ids, &names);
+            }
+        }
+    }
+
     pub fn update_lag(&mut self) {
         #[cfg(feature = "snapshot")]
         {
@@ -338,8 +384,17 @@ impl RouterWorld {
         if self.pick_enabled {
             rumqttd::verif::set_picks(Some(vec![self.pick_mode as usize; 4096]));
         }
+        #[cfg(feature = "snapshot")]
+        let before = if self.pad > 0 { self.cursor_positions() } else { vec![] };
         let ran = self.with_router("run_inner", |r| r.verif_turn()).unwrap_or(false);
         self.turns += 1;
+        if self.pad > 0 {
+            // retention may have discarded what a subscription had not read yet: the model
+            // has to know before the clients look at what this turn sent them
+            #[cfg(feature = "snapshot")]
+            self.mark_overtaken(before);
+            self.update_lag();
+        }
         if ran || !self.outbox.is_empty() {
             // everything that was on the channel has been handled, in order
             let evs: Vec<ChanEv> = self.outbox.drain(..).collect();
